@@ -301,8 +301,10 @@ def shard(ctx):
         mt = {}
         perm = do[:]
         rng.shuffle(perm)
+        same_mtime = rng.random() < 0.3       # files written in one tick (a checkout, `cp -p`): identical modification times
+        ctx.res.counts["batches_with_identical_mtimes"] += 1 if same_mtime else 0
         for rank, j in enumerate(perm):
-            mt["data/" + DN(j)] = 1000000 + rank * 100
+            mt["data/" + DN(j)] = 1000000 + (0 if same_mtime else rank * 100)
         for flag in ("-a", "-m"):
             r = ctx.w.run({"k": "cli", "argv": ["validate", "-r", "{S}/rules", "-d", "{S}/data", flag, "-S", "none", "-o", "json"] + IT, "files": fl, "mtimes": mt})
             ctx.res.cases += 1
